@@ -12,7 +12,7 @@ REGS32 = ["EAX", "EBX", "ECX", "EDX", "ESI", "EDI", "EBP"]
 
 class AMachine(Machine):
     chunk = 12                 # runs per forked child (fork-per-run costs 20x on this VM: page faults)
-    run_timeout = 75.0
+    run_timeout = 240.0        # wall-clock guard only; a time-out that does not reproduce is not reported
     isolate_shrink = True
     shrink_max_evals = 150       # every candidate is a forked run of ~1 s
     selftest_runs = 12
@@ -26,9 +26,10 @@ class AMachine(Machine):
     stub_components = ["host actors (debugger, tuner, host writer, fault injector, restarter) scripted by the seeded schedule",
                        "reference = the same engine in its most conservative schedule (python backend, 1 instruction per block, cold cache)"]
     assumptions = ["LLVM backend not available in this sandbox (no llvmlite): python and gcc backends only",
-                   "x86_32 workload generator; semantics errors common to every schedule are out of scope (C18/C19)",
+                   "x86_32 (80% of the runs) and arml (20%) workload generators; semantics errors common to every schedule are out of scope (C18/C19)",
                    "gcc-backend runs draw their program from a pool of %d per batch so that the private on-disk block cache warms up"]
     gcc_pool = 6
+    gcc_fresh = 0.5            # share of the gcc runs that get a program of their own (with long blocks)
     gcc_share = 0.12           # share of runs on the gcc backend
     features = ["mem", "straddle", "stack", "call", "loop", "branch", "rep", "indirect", "multi"]
     actors = []
@@ -44,21 +45,27 @@ class AMachine(Machine):
         if not getattr(AMachine, "_warmed", False):
             AMachine._warmed = True
             wrng = random.Random(0xC0FFEE)
-            for _ in range(24):
-                lines = a_sim.gen_program_x86(wrng, set(self.features) | {"smc"})
+            for k in range(32):
+                arch = "arml" if k % 4 == 3 else "x86_32"
+                feat = (set(self.features) | {"smc"}) if arch == "x86_32" else set(self.features) - {"rep", "indirect", "smc"}
+                lines = a_sim.gen_program(arch, wrng, feat)
                 try:
-                    prog = a_sim.Program("x86_32", lines)
-                    a_sim.Reference("x86_32", prog, {r: wrng.getrandbits(32) for r in REGS32}, False)
+                    prog = a_sim.Program(arch, lines)
+                    a_sim.Reference(arch, prog, a_sim.default_regs(arch, wrng), False)
                 except a_sim.Discard:
                     pass
 
     # ---- generation ---------------------------------------------------------
-    def gen_program(self, rng, steer):
+    arm_share = 0.2            # share of runs with an ARM (arml) guest; the rest is x86_32
+
+    def gen_program(self, rng, steer, arch="x86_32"):
         feat = set(f for f in self.features if rng.random() < 0.6)
         feat |= set(self.must_features)
         if steer and self.pid in ("C49", "C20"):
             feat.discard("multi")      # open finding: multi-store instructions are torn by a fault
-        return a_sim.gen_program_x86(rng, feat), sorted(feat)
+        if arch != "x86_32":
+            feat -= {"rep", "indirect", "smc"}
+        return a_sim.gen_program(arch, rng, feat), sorted(feat)
 
     must_features = []
 
@@ -69,16 +76,24 @@ class AMachine(Machine):
     def gen(self, rng, steer):
         share = float(os.environ.get("VERIF_GCC_SHARE", self.gcc_share))
         backend = "gcc" if rng.random() < share else "python"
-        if backend == "gcc":
-            # program from the per-batch pool (same seed -> same program -> warm disk cache)
+        fresh = backend == "gcc" and rng.random() < self.gcc_fresh
+        if backend == "gcc" and not fresh:
+            # program from the per-batch pool (same seed -> same program -> warm disk cache), any block length
             prng = random.Random(derive(getattr(self, "master_seed", 0), "pool", rng.randrange(self.gcc_pool)))
-            lines, feat = self.gen_program(prng, steer)
-            init = {r: prng.getrandbits(32) for r in REGS32}
+            arch = "arml" if prng.random() < self.arm_share else "x86_32"
+            lines, feat = self.gen_program(prng, steer, arch)
+            init = a_sim.default_regs(arch, prng)
         else:
-            lines, feat = self.gen_program(rng, steer)
-            init = {r: rng.getrandbits(32) for r in REGS32}
+            arch = "arml" if rng.random() < self.arm_share else "x86_32"
+            lines, feat = self.gen_program(rng, steer, arch)
+            init = a_sim.default_regs(arch, rng)
         knobs = self.gen_knobs(rng)
-        cfg = {"arch": "x86_32", "backend": backend, "program": lines, "features": feat, "init_regs": init,
+        if fresh:
+            # a fresh program on the gcc backend: long blocks only, so that it costs a handful of compilations
+            knobs["maxline"] = rng.choice([5, 8, 50, 50])
+        if arch != "x86_32":
+            knobs.pop("esp_off", None)
+        cfg = {"arch": arch, "backend": backend, "program": lines, "features": feat, "init_regs": init,
                "knobs": knobs, "heal": True}
         if knobs.get("esp_off") is not None:
             init["ESP"] = a_sim.STACK_BASE + knobs["esp_off"]
@@ -99,6 +114,15 @@ class AMachine(Machine):
         """Which of the data pages (0: D0, 1: D1, 2: RO) the program text touches, in order of
         first use: the injector aims at memory that in-flight work is going to access."""
         used = []
+        if cfg["arch"] == "arml":
+            for line in cfg["program"]:
+                for tok, pages in (("[R9", (0, 1)), ("R9,", (0, 1)), ("[R10", (0,)), ("R10,", (0,)), ("[R11", (1,)), ("R11,", (1,)),
+                                   ("[R8", (2,)), ("SP!", (3,))):
+                    if tok in line:
+                        for pg in pages:
+                            if pg not in used:
+                                used.append(pg)
+            return used or [0]
         for line in cfg["program"]:
             for tok, page in (("[0x500f", 1), ("[0x5000", 0), ("[0x5001", 0), ("[0x5002", 0), ("[0x501", 1), ("[0x502", 2),
                               ("0x500", 0), ("0x501", 1)):
@@ -308,6 +332,7 @@ class C22(AMachine):
             "points); knobs as C21; judged against the reference with the cache cleared before every step and the host writes replayed "
             "at their stamped states")
     must_features = ["smc"]
+    arm_share = 0.0            # the self-modifying cells are x86 encodings
     features = ["mem", "stack", "loop", "branch"]
     actors = ["host writer", "tuner", "debugger"]
     diverge_class = "stale-code"
@@ -367,7 +392,8 @@ class C49(AMachine):
     # no per-iteration states to compare a mid-REP fault stop with (stated limit, see DESIGN)
     features = ["mem", "straddle", "stack", "call", "loop", "branch", "indirect", "ro", "multi"]
     actors = ["fault injector", "tuner"]
-    gcc_share = 0.2
+    gcc_share = 0.25
+    gcc_fresh = 1.0
     expected_probes = ["fault_injected_unmap", "fault_injected_perm", "fault_stop", "fault_healed", "runs_completed",
                        "fault_on_straddling_access", "fault_kind_load", "fault_kind_store", "fault_kind_rmw", "fault_kind_stack",
                        "fault_at_block_start", "fault_inside_block"]
@@ -400,6 +426,7 @@ class C20(AMachine):
     features = ["mem", "straddle", "stack", "call", "loop", "branch", "indirect", "ro", "multi"]
     both_backends = True
     gcc_share = 1.0
+    gcc_fresh = 0.7
     gcc_pool = 10
     quick_runs = 220
     thorough_runs = 2500
@@ -411,7 +438,7 @@ class C20(AMachine):
         # one block per call on both backends: their control points coincide, so one schedule
         # (actions keyed by control-point number) is the same history for both replicas
         case["cfg"]["knobs"]["quantum"] = 1
-        if rng.random() < 0.25:
+        if rng.random() < 0.25 and case["cfg"]["arch"] == "x86_32":
             case["cfg"]["knobs"]["esp_off"] = rng.choice([0x4, 0x8, 0x10, 0x1c, 0x20])
             case["cfg"]["init_regs"]["ESP"] = a_sim.STACK_BASE + case["cfg"]["knobs"]["esp_off"]
         for a in case["actions"]:
